@@ -29,9 +29,7 @@ def txJson (t : Tx) : Json :=
     ("to", match t.to with | some a => Json.str (hexOfBytes a) | none => Json.null),
     ("value", optNatJson t.value), ("data", Json.str (hexOfBytes t.data))]
 
-def specFields (t : Tx) : Spec.Tx.Fields :=
-  { nonce := big t.nonce, gasPrice := big t.gasPrice, tip := big t.tip, feeCap := big t.feeCap,
-    gasLimit := big t.gasLimit, to := t.to, value := big t.value, data := t.data }
+def specFields (t : Tx) : Spec.Tx.Fields := fields t
 
 def modeOfString : String → Mode
   | "legacyOriginal" => .legacyOriginal
